@@ -23,7 +23,7 @@ def run(rep):
     C.need_tools(C.ASTDUMP)
     wd = C.workdir("C10")
     src = os.path.join(C.DRIVERS, "c10_driver.cpp")
-    d = C.astdump(src, os.path.join(wd, "c10.json"), ["^boost::gil::image::"])
+    d = C.astdump(src, os.path.join(wd, "c10.json"), ["^boost::gil::image::"], std=os.environ.get("VERIF_C10_STD"))
     if d.get("errors"):
         raise C.AnalysisBroken("c10 driver has compile errors")
     fns = d["functions"]
